@@ -55,14 +55,14 @@ def gen_quarantine_script(rng):
                 L.append('rmindex %d' % v)
             L.append('trunc blob %d %s' % (v, rng.choice(['0', '10', '19', '25', '-3'])))
         L.append('cfgnext init=%s' % rng.choice(['eager', 'lazy', 'lazy']))
-        L += ['open', 'counts', 'ls']
+        L += ['open', 'counts', 'ls', 'disk', 'ls']      # a quarantined blob takes its index file with it: disk_used = what is left
         if rng.random() < 0.4:
             seed += 1
             L.append('W %s 6 - 5 %d' % ((seed % 5 + 1).to_bytes(K, 'big').hex(), seed))
             L += ['counts', 'ls']
         L.append('close')
         ids = list(range(nb + rnd + 2))
-    L += ['cfgnext init=eager', 'open', 'counts', 'ls']
+    L += ['cfgnext init=eager', 'open', 'counts', 'ls', 'disk', 'ls']
     return '\n'.join(L) + '\n'
 
 
@@ -121,13 +121,7 @@ def oracle(lines, io, spec=None):
             top = [(n, int(s)) for n, s in files if '/' not in n and (n.endswith('.blob') or n.endswith('.index'))]
             total = sum(s for _, s in top)
             if used != total:
-                idx = [s for n, s in top if n.endswith('.index')]
-                tag = ''
-                if used < total:
-                    for r in range(1, len(idx) + 1):
-                        if any(sum(c) == total - used for c in itertools.combinations(idx, r)):
-                            tag = '[F14] '
-                            break
+                tag = ''        # (the class F14 that used to be recognised here is repaired)
                 fails.append('%sline %d: disk_used reports %d but the files in the directory occupy %d (%s)' % (tag, i, used, total, io[i + 1][:160]))
     return fails
 
